@@ -2,7 +2,7 @@
 from __future__ import annotations
 
 from . import actors as A
-from . import engine, runner
+from . import engine, known, runner
 
 COMPONENTS_SEQ = {
     "real": [
@@ -46,7 +46,7 @@ def seq_spec(pid, level, rule, profile, oracle_factory, nontrivial_fn=None, worl
         out["expected"] = {"oracle": want, "msg": v.msg, "step": v.step}
         return out
 
-    return runner.CheckSpec(pid=pid, level=level, rule=rule, run_one=run_one, replay_fn=replay_fn, minimise_fn=minimise_fn, components=COMPONENTS_SEQ, **kw)
+    return runner.CheckSpec(pid=pid, level=level, rule=rule, run_one=run_one, replay_fn=replay_fn, minimise_fn=minimise_fn, components=COMPONENTS_SEQ, known_matchers=known.MATCHERS, **kw)
 
 
 def estimate_hook(p_est=0.5, p_cache=0.3):
@@ -71,7 +71,7 @@ _REG = {}
 
 
 def _build():
-    from .oracles import c02, c03
+    from .oracles import c01, c02, c03, c10
 
     _REG["C02"] = seq_spec(
         "C02",
@@ -102,6 +102,41 @@ def _build():
         world_kw={"bw_bias": 0.8},
         assumptions=["Pulse.fall_time of the real code is a trusted input", "scheduled phases are read from the SUT (phase arithmetic is C07's business)"],
         expected_probes=["conflict_forced_delay", "conflict_delay_rounded_up", "phase_jump_buffer_applied", "phase_barrier_applied", "estimate_then_add", "align_padded", "align_with_pending_fall"],
+    )
+
+    _REG["C10"] = seq_spec(
+        "C10",
+        "exploration",
+        "seeded SEQ-SIM runs biased to phase changes and retargets on channels with generated phase-jump/retarget knobs; intrinsic gap invariants on the pulse/target just added; non-trivial = >=1 phase change with a non-zero buffer and >=1 retarget constrained by interval/fixed time/fall wait; distinct = distinct concrete op traces",
+        A.make_profile(
+            chan_ops={"add": 10, "delay": 2, "target": 6, "phase_shift": 1, "align": 1, "enable_eom": 2},
+            eom_ops={"add_eom_pulse": 10, "delay": 2, "modify": 1, "disable": 2, "phase_shift": 0.5, "align": 0.5},
+            w_fault=0.25,
+            w_observer=0.2,
+            measure_p=0.03,
+        ),
+        lambda: [c10.C10()],
+        nontrivial_fn=c10.nontrivial,
+        world_kw={"bw_bias": 0.75},
+        assumptions=["Pulse.fall_time of the real code is a trusted input", "in EOM mode the required phase-jump time is read as 2 x EOM rise time (weakest reading, DESIGN C10)"],
+        expected_probes=["phase_change_with_buffer", "phase_change_in_eom", "phase_change_no_delay", "retarget_same_atoms", "retarget_clipped_to_interval", "fixed_retarget_applied", "retarget_waited_for_fall"],
+    )
+    _REG["C01"] = seq_spec(
+        "C01",
+        "exploration",
+        "seeded SEQ-SIM runs with boundary-biased pulse parameters (at / one ulp or 4e-7 beyond / inside each limit) on generated channels; intrinsic limits of every newly scheduled pulse slot after every accepted call + converse (inside every limit => accepted, unchanged or only lengthened); non-trivial = >=3 pulses scheduled, >=1 within one ulp / 1 ns of a limit; distinct = distinct concrete op traces",
+        A.make_profile(
+            chan_ops={"add": 12, "delay": 2, "target": 2, "phase_shift": 1, "align": 1, "enable_eom": 2},
+            w_fault=0.5,
+            fault_kinds={"bad": 6, "restart": 1, "cache": 0.5},
+            bad_filter=("amp", "det", "dur", "seqdur", "dmm", "eom"),
+            w_observer=0.15,
+            slm_p=0.4,
+        ),
+        lambda: [c01.C01()],
+        nontrivial_fn=c01.nontrivial,
+        assumptions=["waveform sample values are taken from the real code (C16's business)", "RefSched start prediction decides whether a valid pulse still fits max_sequence_duration"],
+        expected_probes=["pulse_near_limit", "pulse_lengthened", "near_max_sequence_duration"],
     )
 
 
